@@ -143,7 +143,13 @@ static Incoming gen_incoming(Rng &r, const Config &c, const std::string &prefix)
         case K_SC: case K_AI: in.type = k == K_SC ? 'c' : 'i'; in.i = (int32_t)std::max(-128.0, std::min(127.0, floor(around(lo, hi, -128, 127)))); break;
         case K_UC: in.type = 'c'; in.i = (int32_t)std::max(0.0, std::min(255.0, floor(around(lo, hi, 0, 255)))); break;
         case K_I: { double v = around(lo, hi, INT_MIN, INT_MAX); in.type = 'i'; in.i = v >= 2147483647.0 ? INT_MAX : v <= -2147483648.0 ? INT_MIN : (int32_t)floor(v); break; }
-        case K_F: case K_AF: { in.type = 'f'; double v = around(lo, hi, -3.0e38, 3.0e38); if(r.chance(0.3)) v += 0.37; in.f = (float)v; break; }
+        case K_F: case K_AF: {
+            in.type = 'f'; double v = around(lo, hi, -3.0e38, 3.0e38); if(r.chance(0.3)) v += 0.37; in.f = (float)v;
+            // the smallest possible changes: a neighbouring float of the stored value (a change!), or the stored value again (none)
+            float cur = k == K_F ? g_z.fv : g_z.af[in.idx];
+            if(r.chance(0.15)) { in.f = nextafterf(cur, r.chance(0.5) ? INFINITY : -INFINITY); count("msgs.float_one_ulp_step"); }
+            else if(r.chance(0.05)) in.f = cur;
+            break; }
         case K_T: case K_AT: in.type = r.chance(0.5) ? 'T' : 'F'; in.t = in.type == 'T'; break;
         case K_O: case K_AO:
             if(r.chance(0.4)) { in.type = 'S'; in.s = c.opts[r.below(c.opts.size())]; }
@@ -184,7 +190,20 @@ static void run_config(Rng &r)
     g_leaf.set({rtosc::Port{c.full.c_str(), c.meta.c_str(), 0, c.cb}});
     static DynPorts *leafp = &g_leaf;
     g_root.set({rtosc::Port{nest == 2 ? "voice#4/" : "sub/", 0, &g_leaf, [](const char *m, rtosc::RtData &d) { while(*m && *m != '/') ++m; if(*m) ++m; leafp->dispatch(m, d); }}});
+    // a sibling sub-tree with long scalar names (perfect-hashed table): messages to it leave long addresses in a reused location buffer
+    static DynPorts g_other;
+    static bool other_built = false;
+    if(!other_built) { g_other.set({rtosc::Port{"cutoff_frequency_and_resonance::f", 0, 0, [](const char *, rtosc::RtData &) {}}, rtosc::Port{"q::f", 0, 0, [](const char *, rtosc::RtData &) {}}}); other_built = true; }
+    static DynPorts *otherp = &g_other;
+    {
+        std::vector<rtosc::Port> rp;
+        rp.push_back(rtosc::Port{nest == 2 ? "voice#4/" : "sub/", 0, &g_leaf, [](const char *m, rtosc::RtData &d) { while(*m && *m != '/') ++m; if(*m) ++m; leafp->dispatch(m, d); }});
+        rp.push_back(rtosc::Port{"filter/", 0, &g_other, [](const char *m, rtosc::RtData &d) { while(*m && *m != '/') ++m; if(*m) ++m; otherp->dispatch(m, d); }});
+        g_root.set(rp);
+    }
     rtosc::Ports &top = nested ? (rtosc::Ports &)g_root : (rtosc::Ports &)g_leaf;
+    static char loc[256];                 // one location buffer for the whole run, as an application keeps it
+    bool reuse_loc = r.chance(0.6);
     std::string prefix = nest == 2 ? fmt("/voice%d/", voice) : nested ? "/sub/" : "/";
     std::string cdesc = render_cfg(c) + (nest == 2 ? " under voice#4/ as " + prefix : nested ? " under sub/" : "");
     if(nest == 2) count("nesting.below_enumerated_subtree");
@@ -205,9 +224,16 @@ static void run_config(Rng &r)
         Zoo before, expect;
         memcpy(&before, &g_z, sizeof g_z); memcpy(&expect, &g_z, sizeof g_z);
         Cap d;
-        char loc[256];
-        memset(loc, 0, sizeof loc);
+        if(!reuse_loc) memset(loc, 0, sizeof loc);
         d.loc = loc; d.loc_size = sizeof loc; d.obj = &g_z;
+        if(nested && reuse_loc && r.chance(0.3)) {
+            // unrelated traffic through the same RtData first
+            char ob[128];
+            rtosc_message(ob, sizeof ob, r.chance(0.7) ? "/filter/cutoff_frequency_and_resonance" : "/filter/q", "f", 0.5f);
+            Cap d0; d0.loc = loc; d0.loc_size = sizeof loc; d0.obj = &g_z;
+            top.dispatch(ob, d0, true);
+            count("msgs.preceded_by_other_traffic_in_same_loc");
+        }
         top.dispatch(in.bytes.c_str(), d, true);
         count(in.query ? "msgs.query" : "msgs.set");
         std::string full = prefix + c.name + (is_array(c.kind) ? std::to_string(in.idx) : "");
